@@ -229,6 +229,8 @@ class VariantFlow:
             a = self.operand(env, r["a"])
             if isinstance(a, tuple) and a[:1] == ("int",) and a[1] in (0, 1):
                 return ("int", 1 - a[1])
+            if isinstance(a, tuple) and a[:1] == ("istest",):
+                return ("istest", a[1], a[2], not a[3])
             return None
         if k == "agg":
             if r["ak"] == "adt":
@@ -290,6 +292,16 @@ class VariantFlow:
                     self.syms[key].payload[(0, 0)] = pay
                 self.syms[key].meta["branch_of"] = a
                 return val
+        if fn in ("std::option::Option::<T>::is_some", "std::option::Option::<T>::is_none", "std::result::Result::<T, E>::is_ok", "std::result::Result::<T, E>::is_err") and t["args"]:
+            a = self.operand(env, t["args"][0])
+            if isinstance(a, Ref):
+                a = self.read(env, list(a.place))
+            if isinstance(a, frozenset) and len(a) == 1:
+                key = next(iter(a))
+                adt = self.syms[key].adt
+                if adt in ("std::option::Option", "std::result::Result"):
+                    yes = {"is_some": 1, "is_none": 0, "is_ok": 0, "is_err": 1}[fn.rsplit("::", 1)[1]]
+                    return ("istest", key, yes, True)          # true <=> the value is variant `yes`
         if fn == "std::ops::FromResidual::from_residual" and len(t["d"]) == 1:
             head = self.body.local_head(t["d"][0])
             if head == "std::option::Option":
@@ -330,6 +342,19 @@ class VariantFlow:
             if isinstance(cond, tuple) and cond[:1] == ("int",):
                 tgt = next((b for v, b in t["ts"] if int(v) == cond[1]), t["else"])
                 yield tgt, env
+                return
+            if isinstance(cond, tuple) and cond[:1] == ("istest",):
+                _, key, yes, pol = cond
+                cur = env["S"].get(key, frozenset())
+                for v, b in [(int(v), b) for v, b in t["ts"]] + [(None, t["else"])]:
+                    truth = (v == 1) if v is not None else (1 not in [int(x) for x, _ in t["ts"]])
+                    is_yes = truth == pol
+                    keep = (cur & frozenset([yes])) if is_yes else (cur - frozenset([yes]))
+                    if not keep:
+                        continue
+                    e2 = self.copy_env(env)
+                    e2["S"][key] = keep
+                    yield b, e2
                 return
             listed = []
             for v, b in t["ts"]:
